@@ -91,7 +91,7 @@ pub fn gen(rng: &mut Rng, size: usize) -> Value {
                 // a declaration whose token carries NO name (the same minified identifier may be declared again elsewhere)
                 toks.push(json!([l, col, 0, toks.len(), 0, -1, 0]));
             } else {
-                names.push(json!(format!("orig_{}_{}", id, toks.len())));
+                names.push(if rng.chance(1, 8) { json!("") } else { json!(format!("orig_{}_{}", id, toks.len())) });   // sometimes the EMPTY name (present, not missing)
                 toks.push(json!([l, col, 0, toks.len(), 0, names.len() - 1, 0]));
             }
             s.push_str(id);
